@@ -1,8 +1,11 @@
 package op
 
 import (
+	"sort"
+
 	"github.com/berquerant/crd/errorx"
 	"github.com/berquerant/crd/note"
+	"gopkg.in/yaml.v3"
 )
 
 type Instance struct {
@@ -35,6 +38,28 @@ func (m Meta) Get(key string) string {
 
 func (m Meta) Set(key, value string) {
 	m[key] = value
+}
+
+// MarshalYAML quotes the key "<<": printed plain (as yaml.v3 does for a map) it is read
+// back as a merge key and the document is refused.
+func (m Meta) MarshalYAML() (any, error) {
+	if _, ok := m["<<"]; !ok {
+		return map[string]string(m), nil
+	}
+	keys := make([]string, 0, len(m))
+	for k := range m {
+		keys = append(keys, k)
+	}
+	sort.Strings(keys)
+	n := &yaml.Node{Kind: yaml.MappingNode}
+	for _, k := range keys {
+		kn := &yaml.Node{Kind: yaml.ScalarNode, Tag: "!!str", Value: k}
+		if k == "<<" {
+			kn.Style = yaml.DoubleQuotedStyle
+		}
+		n.Content = append(n.Content, kn, &yaml.Node{Kind: yaml.ScalarNode, Tag: "!!str", Value: m[k]})
+	}
+	return n, nil
 }
 
 func NewMeta(keyValues ...string) *Meta {
